@@ -150,3 +150,76 @@ NCP_FIELDS_LARGE = {
     'type':		( 29, 0x3 ),
     'redundant':	( 31, 0x1 ),
 }
+
+
+# ---------------------------------------------------------------------------------------- message layouts (for L-SPEC)
+# Written from the CIP specification (Vol 1 ch. 3 Connection Manager services, Appendix C; Vol 2 encapsulation) and the Logix 5000 Data
+# Access manual (1756-PM020) -- NOT derived from cpppo.  Notation:
+#   ( fmt, name )      fixed field, little-endian struct format unless prefixed '>' ; name = the field's meaning (compared with the
+#                      last path components of where the parser stores it / the producer takes it from)
+#   ( 'pad', n )       n reserved / pad octets
+#   ( kind, name )     variable part: 'EPATH', 'EPATH_padded', 'route_path', 'status', 'data' (typed or raw payload), 'CPF', 'SSTRING'
+#   ( 'repeat', [ ... ] )   counted repetition of the inner layout
+#   ( 'opt', [ ... ] ) optional tail
+def _svc(): return ( 'B', 'service' )
+def _hdr_reply(): return [ _svc(), ( 'pad', 1 ), ( 'status', 'status' ) ]
+
+_FO_COMMON_HEAD = [ _svc(), ( 'EPATH', 'path' ), ( 'B', 'priority_time_tick' ), ( 'B', 'timeout_ticks' ),
+                    ( '<I', 'O_T.connection_ID' ), ( '<I', 'T_O.connection_ID' ), ( '<H', 'connection_serial' ), ( '<H', 'O_vendor' ),
+                    ( '<I', 'O_serial' ), ( 'B', 'connection_timeout_multiplier' ), ( 'pad', 3 ) ]
+
+MESSAGE_LAYOUTS = {
+    # key: ( 'service', class, number ) or ( 'class', name )
+    ( 'class', 'register' ):		[ [ ( '<H', 'protocol_version' ), ( '<H', 'options' ) ] ],
+    ( 'class', 'send_data' ):		[ [ ( '<I', 'interface' ), ( '<H', 'timeout' ), ( 'CPF', 'CPF' ) ] ],
+    ( 'class', 'connection_ID' ):	[ [ ( '<I', 'connection' ) ] ],
+    ( 'class', 'connection_data' ):	[ [ ( '<H', 'sequence' ), ( 'data', 'request' ) ] ],
+    ( 'class', 'unconnected_send' ):	[ [ _svc(), ( 'EPATH', 'path' ), ( 'B', 'priority' ), ( 'B', 'timeout_ticks' ), ( '<H', 'length' ), ( 'data', 'request' ),
+                                            ( 'route_path', 'route_path' ) ],
+                                          [ _svc(), ( 'EPATH', 'path' ), ( 'B', 'priority' ), ( 'B', 'timeout_ticks' ), ( '<H', 'length' ), ( 'data', 'request' ),
+                                            ( 'pad', 1 ), ( 'route_path', 'route_path' ) ] ],
+    ( 'class', 'identity_object' ):	[ [ ( '<H', 'version' ), ( '>h', 'sin_family' ), ( '>H', 'sin_port' ), ( '>I', 'sin_addr' ), ( 'pad', 8 ),
+                                            ( '<H', 'vendor_id' ), ( '<H', 'device_type' ), ( '<H', 'product_code' ), ( '<H', 'product_revision' ),
+                                            ( '<H', 'status_word' ), ( '<I', 'serial_number' ), ( 'SSTRING', 'product_name' ), ( 'B', 'state' ) ] ],
+    ( 'class', 'status' ):		[ [ ( 'B', '' ), ( 'B', 'ext.size' ) ],
+                                          [ ( 'B', '' ), ( 'B', 'ext.size' ), ( 'repeat', [ ( '<H', 'ext' ) ] ) ] ],
+    ( 'service', 'Logix', 0x4C ):	[ [ _svc(), ( 'EPATH', 'path' ), ( '<H', 'elements' ) ] ],
+    ( 'service', 'Logix', 0xCC ):	[ _hdr_reply(), _hdr_reply() + [ ( '<H', 'type' ), ( 'data', 'read_tag' ) ],
+                                          _hdr_reply() + [ ( '<H', 'type' ), ( '<H', 'structure_tag' ), ( 'data', 'data' ) ] ],
+    ( 'service', 'Logix', 0x52 ):	[ [ _svc(), ( 'EPATH', 'path' ), ( '<H', 'elements' ), ( '<I', 'offset' ) ] ],
+    ( 'service', 'Logix', 0xD2 ):	[ _hdr_reply(), _hdr_reply() + [ ( '<H', 'type' ), ( 'data', 'read_frag' ) ],
+                                          _hdr_reply() + [ ( '<H', 'type' ), ( '<H', 'structure_tag' ), ( 'data', 'data' ) ] ],
+    ( 'service', 'Logix', 0x4D ):	[ [ _svc(), ( 'EPATH', 'path' ), ( '<H', 'type' ), ( '<H', 'elements' ), ( 'data', 'write_tag' ) ],
+                                          [ _svc(), ( 'EPATH', 'path' ), ( '<H', 'type' ), ( '<H', 'structure_tag' ), ( '<H', 'elements' ), ( 'data', 'data' ) ] ],
+    ( 'service', 'Logix', 0xCD ):	[ _hdr_reply() ],
+    ( 'service', 'Logix', 0x53 ):	[ [ _svc(), ( 'EPATH', 'path' ), ( '<H', 'type' ), ( '<H', 'elements' ), ( '<I', 'offset' ), ( 'data', 'write_frag' ) ],
+                                          [ _svc(), ( 'EPATH', 'path' ), ( '<H', 'type' ), ( '<H', 'structure_tag' ), ( '<H', 'elements' ), ( '<I', 'offset' ), ( 'data', 'data' ) ] ],
+    ( 'service', 'Logix', 0xD3 ):	[ _hdr_reply() ],
+    ( 'service', 'Message_Router', 0x0A ):	[ [ _svc(), ( 'EPATH', 'path' ), ( '<H', 'number' ), ( 'repeat', [ ( '<H', 'offset' ) ] ), ( 'data', 'request_data' ) ] ],
+    ( 'service', 'Message_Router', 0x8A ):	[ _hdr_reply(), _hdr_reply() + [ ( '<H', 'number' ), ( 'repeat', [ ( '<H', 'offset' ) ] ), ( 'data', 'request_data' ) ] ],
+    ( 'service', 'Connection_Manager', 0x54 ):	[ _FO_COMMON_HEAD + [ ( '<I', 'O_T.RPI' ), ( '<H', 'O_T.NCP' ), ( '<I', 'T_O.RPI' ), ( '<H', 'T_O.NCP' ),
+                                                    ( 'B', 'transport_class_triggers' ), ( 'EPATH', 'connection_path' ) ] ],
+    ( 'service', 'Connection_Manager', 0x5B ):	[ _FO_COMMON_HEAD + [ ( '<I', 'O_T.RPI' ), ( '<I', 'O_T.NCP' ), ( '<I', 'T_O.RPI' ), ( '<I', 'T_O.NCP' ),
+                                                    ( 'B', 'transport_class_triggers' ), ( 'EPATH', 'connection_path' ) ] ],
+    ( 'service', 'Connection_Manager', 0xD4 ):	[ _hdr_reply() + [ ( '<I', 'O_T.connection_ID' ), ( '<I', 'T_O.connection_ID' ), ( '<H', 'connection_serial' ), ( '<H', 'O_vendor' ),
+                                                    ( '<I', 'O_serial' ), ( '<I', 'O_T.API' ), ( '<I', 'T_O.API' ), ( 'B', 'application.size' ), ( 'pad', 1 ), ( 'data', 'application' ) ],
+                                                  _hdr_reply() + [ ( '<H', 'connection_serial' ), ( '<H', 'O_vendor' ), ( '<I', 'O_serial' ) ],
+                                                  _hdr_reply() + [ ( '<H', 'connection_serial' ), ( '<H', 'O_vendor' ), ( '<I', 'O_serial' ), ( 'B', 'remaining_path_size' ), ( 'pad', 1 ) ] ],
+    ( 'service', 'Connection_Manager', 0x4E ):	[ [ _svc(), ( 'EPATH', 'path' ), ( 'B', 'priority_time_tick' ), ( 'B', 'timeout_ticks' ), ( '<H', 'connection_serial' ),
+                                                    ( '<H', 'O_vendor' ), ( '<I', 'O_serial' ), ( 'EPATH_padded', 'connection_path' ) ] ],
+    ( 'service', 'Connection_Manager', 0xCE ):	[ _hdr_reply(),		# status-only reply (as observed from ControlLogix controllers)
+                                                  _hdr_reply() + [ ( '<H', 'connection_serial' ), ( '<H', 'O_vendor' ), ( '<I', 'O_serial' ), ( 'B', 'application.size' ), ( 'pad', 1 ), ( 'data', 'application' ) ] ],
+    ( 'service', 'Object', 0x0E ):		[ [ _svc(), ( 'EPATH', 'path' ) ] ],
+    ( 'service', 'Object', 0x8E ):		[ _hdr_reply(), _hdr_reply() + [ ( 'data', 'get_attribute_single' ) ] ],
+    ( 'service', 'Object', 0x10 ):		[ [ _svc(), ( 'EPATH', 'path' ), ( 'data', 'set_attribute_single' ) ] ],
+    ( 'service', 'Object', 0x90 ):		[ _hdr_reply() ],
+    ( 'service', 'Object', 0x01 ):		[ [ _svc(), ( 'EPATH', 'path' ) ] ],
+    ( 'service', 'Object', 0x81 ):		[ _hdr_reply(), _hdr_reply() + [ ( 'data', 'get_attributes_all' ) ] ],
+    ( 'service', 'Object', 0x03 ):		[ [ _svc(), ( 'EPATH', 'path' ), ( '<H', 'number' ), ( 'repeat', [ ( '<H', 'attribute' ) ] ) ] ],
+    ( 'service', 'Object', 0x83 ):		[ _hdr_reply(), _hdr_reply() + [ ( 'data', 'get_attribute_list' ) ] ],
+}
+# the messages whose *producer* must emit exactly a spec layout (what the simulator sends to an independent client)
+REPLY_PRODUCERS = ( ( 'Logix', 0xCC ), ( 'Logix', 0xD2 ), ( 'Logix', 0xCD ), ( 'Logix', 0xD3 ), ( 'Message_Router', 0x8A ),
+                    ( 'Connection_Manager', 0xD4 ), ( 'Connection_Manager', 0xDB ), ( 'Connection_Manager', 0xCE ),
+                    ( 'Object', 0x8E ), ( 'Object', 0x90 ), ( 'Object', 0x81 ), ( 'Object', 0x83 ) )
+MESSAGE_LAYOUTS[( 'service', 'Connection_Manager', 0xDB )] = MESSAGE_LAYOUTS[( 'service', 'Connection_Manager', 0xD4 )]
